@@ -13,7 +13,7 @@ RULE = ("every sequence of length N over N symbols (every multiplicity pattern i
 ASSUMPTIONS = ["int/int true division is correctly rounded, so equality with float(Fraction) is exact",
                "table cells never contain the join characters '.' or '_' (outside the property); missing is spelled either '' or None/NaN, one spelling per table",
                "a 2-tuple is the legacy (alpha, beta) form and is not used as a plain sample container"]
-REQUIRED_CLASSES = {"all": ["reordering", "relabelling", "table-missing-cell", "table-collision-without-separator", "two-sample", "legacy-tuple", "two-table", "two-table-mixed-missing-spelling", "negative-int-cells", "tuple-or-mixed-type-elements"]}
+REQUIRED_CLASSES = {"all": ["reordering", "relabelling", "table-missing-cell", "table-collision-without-separator", "two-sample", "legacy-tuple", "two-table", "two-table-mixed-missing-spelling", "negative-int-cells", "tuple-or-mixed-type-elements", "line-break-in-cell"]}
 MIN_OUTCOMES = 8
 
 LABELS = {
@@ -29,6 +29,8 @@ SPACES = ("A", "A ", " A", " ")          # cells that differ only by leading/tra
 INTS = (1, 11)
 NEGS = (-1, -2, 2)        # hash(-1) == hash(-2) in CPython
 FLOATS = (1000001.0, 1000002.0, 0.1234567, 0.1234568)    # differ only beyond 6 significant digits
+LINES = ("A", "A\n", "\nA", "A\r", "A\u2028B", "A\nB")      # free-text cells with line-break characters: still one cell each
+EFLOATS = (1e16, 2e16, 1e-05)       # float cells whose text holds neither '.' nor '_' (1e+16, 2e+16, 1e-05); the first two are whole numbers
 
 
 def spaces(tier):
@@ -48,11 +50,11 @@ def spaces(tier):
     def gen_tables():
         # (column types, max rows)
         plans = [(("t",), 4), (("i",), 4), (("t", "t"), 3), (("t", "i"), 3 if q else 4), (("i", "i"), 4), (("t3", "t3", "t3"), 2 if q else 3), (("t3", "i", "t3"), 2 if q else 3)]
-        plans += [(("n",), 3), (("n", "t3"), 2 if q else 3), (("n", "n"), 2 if q else 3), (("f",), 3), (("f", "t3"), 2), (("i", "f"), 2 if q else 3), (("w",), 3), (("w", "t3"), 2), (("w", "w"), 2)]
+        plans += [(("n",), 3), (("n", "t3"), 2 if q else 3), (("n", "n"), 2 if q else 3), (("f",), 3), (("f", "t3"), 2), (("i", "f"), 2 if q else 3), (("w",), 3), (("w", "t3"), 2), (("w", "w"), 2), (("l",), 3), (("l", "t3"), 2), (("e",), 3), (("e", "t3"), 2)]
         if not q:
             plans += [(("t", "t"), 4), (("i", "i", "i", "i"), 3), (("t3", "t3", "i", "i"), 2)]
         for types, maxrows in plans:
-            alph = [TEXT if t == "t" else TEXT3 if t == "t3" else NEGS if t == "n" else FLOATS if t == "f" else SPACES if t == "w" else INTS for t in types]
+            alph = [TEXT if t == "t" else TEXT3 if t == "t3" else NEGS if t == "n" else FLOATS if t == "f" else SPACES if t == "w" else LINES if t == "l" else EFLOATS if t == "e" else INTS for t in types]
             rows = list(itertools.product(*alph))
             for n in range(2, maxrows + 1):
                 for table in itertools.product(rows, repeat=n):
@@ -66,6 +68,14 @@ def spaces(tier):
                 for t1 in itertools.product(rows, repeat=n1):
                     for t2 in itertools.product(rows, repeat=n2):
                         yield ("tables2", types, t1, t2)
+        # a float column that is all whole numbers in one table and not in the other; free-text cells with line breaks
+        for types, alph in ((("t3", "e"), EFLOATS), (("t3", "l"), LINES[:4])):
+            rows = list(itertools.product(TEXT3[:2], alph))
+            for n1 in (1, 2):
+                for n2 in (1, 2):
+                    for t1 in itertools.product(rows, repeat=n1):
+                        for t2 in itertools.product(rows, repeat=n2):
+                            yield ("tables2", types, t1, t2)
         # a column that is missing throughout (e.g. an unsequenced chain): float64 when spelled NaN, object when spelled None / ''
         types = ("t3", "m")
         rows = list(itertools.product(TEXT3, (None,)))
@@ -257,6 +267,8 @@ def _check_table(acc, case, spell=None):
         acc.cls("table-collision-without-separator")
     if "n" in types:
         acc.cls("negative-int-cells")
+    if "l" in types:
+        acc.cls("line-break-in-cell")
     counts = [list(table).count(r) for r in set(table)]
     cols = ["c%d" % i for i in range(len(types))]
     spells = (("none", "empty-string", "nan", "none-and-nan") if has_missing else ("none",)) if spell is None else (spell,)
